@@ -29,6 +29,7 @@ def universe(tier, seed):
     feature += [b for b in S.enumerate_methods(5, 2, {"s", "try", "return", "if"}) if "try" in S.features(b) and S.size_of_body(b) >= 4]
     feature += [b for b in S.enumerate_methods(5, 3, {"s", "for", "dowhile", "continue", "break"})
                 if S.size_of_body(b) >= 4 and ({"for", "dowhile"} & S.features(b)) and ({"continue", "break"} & S.features(b))]
+    feature += [b for b in S.enumerate_methods(5, 3, {"s", "whileelse", "break", "continue", "if", "return"}) if "whileelse" in S.features(b)]
     small = small + feature
     out = []
     for r in S.RENDERERS:
